@@ -334,3 +334,22 @@ def validate_trace(sdir, module, recfile, label, timeout=1800, chunk=100):
             except Exception:
                 pass
     return st, rejected, n
+
+
+def model_to_json(v):
+    """wire form of a model value -> JSON text (for replay files of direction-B evaluation records)"""
+    def conv(x):
+        t = x['t']
+        if t == 'null':
+            return None
+        if t == 'bool':
+            return x['b']
+        if t == 'num':
+            n = x['n']
+            return n // 1000 if n % 1000 == 0 else n / 1000
+        if t == 'str':
+            return ''.join(chr(c) for c in x['s'])
+        if t == 'arr':
+            return [conv(e) for e in x['a']]
+        return {''.join(chr(c) for c in m['key']): conv(m['val']) for m in x['o']}
+    return json.dumps(conv(v))
